@@ -188,8 +188,10 @@ class Check(PropertyCheck):
                   "hook completions, datagrams) and for ANY behaviour of the per-stream child layers (abstract ChildOps): "
                   "allocated_ids_unique, id_bits + allocator_id_bits (id % 4 = 2*uni + initiator-is-server), "
                   "pairing_is_partial_bijection (equal directionality), pairing_is_stable, signals_reach_only_pair and "
-                  "stream_commands_address_registered_streams; proved by an invariant of the stream table preserved by every "
-                  "step (no bound on streams or events). The executable model (child = C29 TCP/UDP relay model) is tied to the "
+                  "stream_commands_address_registered_streams, and their whole-history forms by induction over the event list: "
+                  "pairing_is_stable_forever, signals_reach_only_pair_forever (the commands an event produced are addressed to "
+                  "the pair that is registered under the event's id in EVERY later state), history_addresses_registered_streams; "
+                  "proved by an invariant of the stream table preserved by every step (no bound on streams or events). The executable model (child = C29 TCP/UDP relay model) is tied to the "
                   "real RawQuicLayer(force_raw=True) by step-wise comparison of all commands, the (client id, server id) table "
                   "and next_stream_id.")
     level_note = ("modelled: _handle_event stream registration, event_to_child translation (SendData/CloseConnection/"
@@ -198,6 +200,8 @@ class Check(PropertyCheck):
                   "modelled: RawQuicLayer's own OpenConnection on Start (server taken as connected), force_raw=False (NextLayer "
                   "protocol detection), aioquic itself. Re-entrant ConnectionClosed into a child whose generator is suspended is "
                   "delivered after the child's step in the model (indistinguishable for TCPLayer, which is already `done`). "
+                  "Not proved (only exercised by the tie): that no SendQuicStreamData/ResetQuicStream follows a FIN/reset on the same "
+                  "(connection, stream id) - in the code this is the CAN_WRITE guard of event_to_child. "
                   "The tie is differential, not a proof.")
     technique = "Lean 4 proof (invariant over all event interleavings of the stream-id bookkeeping, children abstract) + step-wise model-vs-code correspondence via world.py"
     rule = ("schedules over stream data / FIN / reset on bidi+uni, client- and server-initiated streams (<= 6 streams), "
